@@ -431,7 +431,7 @@ pub static C09: SimpleProp = SimpleProp {
     id: "C09",
     level: "exploration",
     rule: "one evaluation = one decode of (valid reference-encoded prefix + one illegal copy: distance produced+1, dictionary+1, one lap back, 2^31, 2^32-1, stale repeated distance at stream start or across an LZMA2 dictionary reset, matched literal with stale rep0) followed by a declared size, an end marker, or nothing at all (size unknown), placed at wrap-relative positions 0,1,dict-1,dict,dict+1,k*dict±1 and random; circular window via lzma_decompress / raw decoder (dictionary 1..64, 4096..) / Stream, with no memory limit, one >= the dictionary, or one below it (the delivered bytes must then still be a prefix of what the symbols define), accumulating window via LZMA2 plain and inside .xz; every case distinct by scenario hash and non-trivial by construction",
-    runs_quick: 60_000,
+    runs_quick: 200_000,
     runs_thorough: 24_000_000,
     both_profiles: false,
     assumptions: &[
